@@ -2401,16 +2401,22 @@ def BHJM_cylinder_segment(
     phio1 = phi
     phio2 = phi - np.sign(phi) * 2 * np.pi
 
-    # phi=phi1, phi=phi2
-    mask_phi1 = close(phio1, phi1) | close(phio2, phi1)
-    mask_phi2 = close(phio1, phi2) | close(phio2, phi2)
+    # phi=phi1, phi=phi2: the same test as determine_cases (azimuths that differ by full turns coincide)
+    mod1 = np.abs(phi - phi1) % (2 * np.pi)
+    mod2 = np.abs(phi - phi2) % (2 * np.pi)
+    mask_phi1 = close(mod1, 0) | close(mod1, 2 * np.pi)
+    mask_phi2 = close(mod2, 0) | close(mod2, 2 * np.pi)
 
-    # r, phi ,z lies in-between, avoid numerical fluctuations (e.g. due to rotations) by including 1e-14
-    mask_r_in = (r1 - 1e-14 < r) & (r < r2 + 1e-14)
-    mask_phi_in = (np.sign(phio1 - phi1) != np.sign(phio1 - phi2)) | (
-        np.sign(phio2 - phi1) != np.sign(phio2 - phi2)
+    # r, phi, z lie in-between: strictly, or on a bounding surface within the tolerance of `close` - the
+    # tolerance of the surface masks and of determine_cases, so that no observer falls between the two tests
+    mask_r_in = ((r1 < r) & (r < r2)) | close(r, r1) | close(r, r2)
+    # the axis of a segment without bore (the apex line) belongs to every azimuth
+    mask_phi_in = (
+        (np.sign(phio1 - phi1) != np.sign(phio1 - phi2))
+        | (np.sign(phio2 - phi1) != np.sign(phio2 - phi2))
+        | (close(r, 0) & close(r1, 0))
     )
-    mask_z_in = (z1 - 1e-14 < z) & (z < z2 + 1e-14)
+    mask_z_in = ((z1 < z) & (z < z2)) | close(z, z1) | close(z, z2)
 
     # on surface
     mask_surf_z = (
